@@ -223,7 +223,7 @@ pub fn check(rep: &mut CaseReport, events: &[Event], cfg: &AcceptCfg, out: Optio
     // Decidable exactly while nobody accepts (before "accepting starts", no abandoned accepts in flight).
     let mut resets_left = resets.clone();
     for (ci, (ident, t, cached, acceptor_around, _full)) in copies.iter().enumerate() {
-        let nobody_accepting = !*acceptor_around && accepting_started.map(|s| *t < s).unwrap_or(true) && cfg.cancelled_accepts.is_none();
+        let nobody_accepting = !*acceptor_around && accepting_started.map(|s| *t < s).unwrap_or(true) && cfg.cancelled_accepts.is_none() && cfg.instant_abandons.is_none();
         if !nobody_accepting {
             continue;
         }
@@ -263,7 +263,7 @@ pub fn check(rep: &mut CaseReport, events: &[Event], cfg: &AcceptCfg, out: Optio
     // every RESET the listener emitted must answer some SYN copy that arrived at a full backlog
     for r in &resets {
         rep.counters.inc("c13_resets_emitted");
-        let justified = copies.iter().any(|(ident, t, cached, _, _)| ident.0 == r.1 && ident.1 == r.2 && r.0 == *t && *cached >= BACKLOG) || cfg.cancelled_accepts.is_some();
+        let justified = copies.iter().any(|(ident, t, cached, _, _)| ident.0 == r.1 && ident.1 == r.2 && r.0 == *t && *cached >= BACKLOG) || cfg.cancelled_accepts.is_some() || cfg.instant_abandons.is_some();
         if !justified {
             rep.violate(P, "backlog", "the listener emitted a RESET that refuses no SYN arriving at a full backlog", format!("RESET to {} id {} ack {} at {} us", r.1, r.2, r.3, r.0), Some(r.0));
         }
@@ -297,7 +297,7 @@ pub fn check(rep: &mut CaseReport, events: &[Event], cfg: &AcceptCfg, out: Optio
             }
         }
     }
-    if cfg.cancelled_accepts.is_some() {
+    if cfg.cancelled_accepts.is_some() || cfg.instant_abandons.is_some() {
         rep.counters.inc("c13_cases_with_abandoned_accepts");
     }
     if cfg.hanging_connects.is_some() {
